@@ -113,7 +113,9 @@ struct StripeState {
 
   uint32_t numWorkers;
   uint32_t numMaskWords; // ceil(numWorkers / 64)
-  IntegerT chunkSize;
+  // Kept in the widened (cursor) type: the chunk size is computed in size_type and may exceed
+  // the range of a narrow IntegerT (e.g. 128 for an int8_t range spanning more than 127).
+  typename StripeCursor<IntegerT>::WideT chunkSize;
   uint32_t granularity;
   // Number of stripes that still contain unclaimed iterations. Init = count
   // of non-empty stripes; decremented exactly once per stripe by whichever
@@ -199,8 +201,8 @@ inline bool stripeClaim(
     IntegerT& outEnd) {
   using Wide = typename StripeCursor<IntegerT>::WideT;
   auto& s = state.stripes[stripeIdx];
-  const IntegerT chunkSize = state.chunkSize;
-  Wide prev = s.next.fetch_add(static_cast<Wide>(chunkSize), std::memory_order_relaxed);
+  const Wide chunkSize = state.chunkSize;
+  Wide prev = s.next.fetch_add(chunkSize, std::memory_order_relaxed);
   if (prev >= s.end) {
     // Stripe exhausted before this claim. Try to be the one to retire it.
     bool expected = false;
@@ -220,7 +222,7 @@ inline bool stripeClaim(
     return false;
   }
   outBegin = static_cast<IntegerT>(prev);
-  Wide endWide = prev + static_cast<Wide>(chunkSize);
+  Wide endWide = prev + chunkSize;
   outEnd = static_cast<IntegerT>(endWide > s.end ? s.end : endWide);
   return true;
 }
@@ -343,7 +345,7 @@ inline void initStripeState(
     IntegerT start,
     IntegerT end,
     uint32_t numWorkers,
-    IntegerT chunkSize,
+    typename StripeCursor<IntegerT>::WideT chunkSize,
     uint32_t granularity) {
   using Wide = typename std::conditional<std::is_signed<IntegerT>::value, int64_t, uint64_t>::type;
   state.numWorkers = numWorkers;
